@@ -10,6 +10,7 @@ from engine.model import src, stmt_key, dotted, AnalysisError
 from engine.util import own_nodes, calls_with_nodes, where, with_exprs
 
 RULES = {
+    "R-02.12": "plain encoding keeps the octets: a record writer lower-cases an embedded name only when the caller asked for the canonical form - the `canonicalize` flag a subclass hands to its base writer is the caller's (or the constant the RFC 4034 table prescribes), never a constant True (C15 R-15.1 adopted)",
     "R-02.11": "the reader accepts every value the writer can produce at the edges of a range: for each range refusal of LOC.from_wire_parser (`x < MIN or x > MAX` over the folded constants) the test is evaluated - by the checker, on the expression - at MIN and MAX (must pass) and at MIN-1 and MAX+1 (must refuse)",
     "R-02.10": "a malformed RDATA is a format error whatever helper noticed it: the per-type reader runs entirely inside `with ExceptionWrapper(FormError)` and the wrapper converts every foreign exception, DNS exceptions of other families included (rule of C04 R-04.3, run here directly because C04 adopts C02 rules)",
     "R-02.9": "a field of maximal legal size survives: the constructor validators that every decoder runs accept exactly the interval the wire format allows (C05 R-05.5 adopted: e.g. _as_bytes refuses len > max, not >=)",
@@ -336,6 +337,7 @@ def run(model, rep, tier):
                       f"`{b_}` is read from the wire (`{src(a)[:50]}`) and never used: the decoded object gets the constructor's default for that field, so a value whose field is non-default "
                       "does not survive encode-then-decode", stmt=f"wire-value-used {b_}")
     rep.floor("R-02.7", n_read, 120)
+    rep.share(model, "C15", {"R-15.1"}, "R-02.12", "to_wire(canonicalize=False) is what from_wire's fixed point compares with: decode-then-encode must reproduce the case of embedded names")
     from engine.minieval import evaluate, Unsupported
     lw = model.func("dns.rdtypes.ANY.LOC.LOC.from_wire_parser")
     n_rng = 0
